@@ -89,6 +89,16 @@ def _expr_emptiness(t):
     if isinstance(t, ast.UnaryOp) and isinstance(t.op, ast.Not):
         r = _expr_emptiness(t.operand)
         return (r[0], not r[1]) if r else None
+    if isinstance(t, ast.BoolOp) and isinstance(t.op, ast.And):
+        # `isinstance(E, str) and E == ""`: the question is asked about the empty *string*, for which the type test holds
+        rest = [v for v in t.values if not (isinstance(v, ast.Call) and isinstance(v.func, ast.Name) and v.func.id == "isinstance" and len(v.args) == 2
+                                            and "str" in {n.id for n in ast.walk(v.args[1]) if isinstance(n, ast.Name)})]
+        if len(rest) == 1 and len(rest) < len(t.values):
+            r = _expr_emptiness(rest[0])
+            dropped = [v for v in t.values if v is not rest[0]]
+            if r is not None and all(ast.dump(v.args[0]) == r[0] for v in dropped):
+                return r
+        return None
     if isinstance(t, ast.Compare) and len(t.ops) == 1:
         l, r, op = t.left, t.comparators[0], t.ops[0]
         if isinstance(r, ast.Constant) and r.value == "" and isinstance(op, (ast.Eq, ast.NotEq)):
@@ -224,8 +234,11 @@ def _announcement_holes(fi, R, norm):
 def _name_alternatives(fi, name, before):
     """what a local / parameter may hold where it is used: the values assigned to it earlier in the function, and the
     parameter itself when some path leaves it as it came"""
-    vals = [st.value for st in ast.walk(fi.node) if isinstance(st, ast.Assign) and any(isinstance(t, ast.Name) and t.id == name for t in st.targets)
-            and (st.lineno, st.col_offset) < (before.lineno, before.col_offset)]
+    vals = []
+    for st in ast.walk(fi.node):
+        if isinstance(st, ast.Assign) and any(isinstance(t, ast.Name) and t.id == name for t in st.targets) and (st.lineno, st.col_offset) < (before.lineno, before.col_offset):
+            st.value._assigned_by = st  # the guards of the assignment (`if d == "": x = '""'` / `else: x = quote(d)`) belong to the alternative
+            vals.append(st.value)
     if name in fi.params():
         vals.append(ast.Name(id=name, ctx=ast.Load()))
     return vals
@@ -244,13 +257,24 @@ def rule_empty_hole(prog, rep, tier, writer="defaults_utils.set_default_doc"):
             exprs = [hole]
             if isinstance(hole, ast.Name):
                 exprs = _name_alternatives(fi, hole.id, c) or [hole]
-            alts = [a for e in exprs for a in _passes_quoting(prog, e)]
+            alts = []
+            for e in exprs:
+                for a in _passes_quoting(prog, e):
+                    if getattr(e, "_assigned_by", None) is not None:
+                        a._assigned_by = e._assigned_by
+                    alts.append(a)
             if not alts:
                 rep.ob("EMPTY-HOLE", "%s: %s" % (prog.owner_name(fi), src(hole, 60)), "unresolved", loc(prog, hole), "no quoting step in the value written behind the announcement")
                 continue
             for alt in alts:
                 n += 1
                 h = Hole(prog)
+                st_ = getattr(alt, "_assigned_by", None)
+                if st_ is not None:
+                    for t, pol in expr_guards(st_, stop=fi.node):
+                        em = _expr_emptiness(t)
+                        if em is not None and em[1] != pol:
+                            h.nonempty.add(em[0])  # this assignment is only reached when that expression is not empty
                 if h.may_be_empty(alt, fi):
                     rep.violation(Finding(
                         "EMPTY-HOLE", prog.owner_name(fi), "announced-value-may-be-empty",
@@ -524,21 +548,32 @@ def rule_prose_gate(prog, rep, tier, writer="defaults_utils.set_default_doc", en
     R, casefold, _ = _announce_reader(prog, folder)
     norm = (lambda s: s.casefold()) if casefold else (lambda s: s)
     W = prog.fn(writer)
-    holes = _announcement_holes(W, R, norm)
-    if not holes:
+    # the statements of W that write the sentence: the template itself, or a call of a helper (of W's region) that holds it
+    writers = {id(f.node): f for f in prog.region(W) if _announcement_holes(f, R, norm)}
+    if not writers:
         raise AnalysisError("PROSE-GATE: %s no longer writes the default announcement" % writer)
+    announcing = set()
+    for x in ast.walk(W.node):
+        hit = False
+        if id(W.node) in writers and any(x is h[0] for h in _announcement_holes(W, R, norm)):
+            hit = True
+        elif isinstance(x, ast.Call) and isinstance(x.func, (ast.Name, ast.Attribute)):
+            hit = any(isinstance(t, FunctionInfo) and t is not W and any(id(r.node) in writers for r in prog.reachable([t])) for t in prog.resolve_expr_fn(x.func, x))
+        if hit:
+            st_of = x
+            while not isinstance(st_of, ast.stmt):
+                st_of = st_of._parent
+            announcing.add(id(st_of))
+    if not announcing:
+        raise AnalysisError("PROSE-GATE: no statement of %s writes the default announcement" % writer)
     # ---- writer clause
-    tpl = holes[0][0]
-    st_of = tpl
-    while not isinstance(st_of, ast.stmt):
-        st_of = st_of._parent
     cfg = CFG(W.node)
     n_paths = n_bad = 0
     example = None
     for path in cfg.paths():
         if path[-1][0].kind != "RETURN":
             continue
-        if any(node.stmt is st_of for node, _ in path):
+        if any(id(node.stmt) in announcing for node, _ in path):
             continue
         n_paths += 1
         alts = [[]]
